@@ -106,6 +106,27 @@ fn small_doc(r: &mut Rng) -> J {
     ])
 }
 
+/// One expression per interpreter feature, so that a scenario can make sure every
+/// feature is being evaluated by at least two threads at the same time.
+const KINDS: &[&str] = &[
+    "`[3, 1, 2]`",                                  // literal shared through the tree
+    "[?@ != `null`] | [0] || `\"lit\"`",           // filter, comparison with a literal, pipe, or
+    "sort_by(xs, &id)[*].id || sort(a)",            // function with expression reference, projection
+    "{p: a, q: s, r: `1.5`}",                       // multi-select hash
+    "[a, s, xs[0]]",                                // multi-select list (results alias the document)
+    "xs[::-1] || a[::-1]",                          // slice
+    "xs[].id || a[]",                               // flatten
+    "*",                                            // object values
+    "!a && s",                                      // not / and
+    "map(&abs(@), a) || map(&[0], @)",              // map + nested call
+    "to_string(@)",                                 // serialisation
+    "a[0] < a[1]",                                  // ordering comparison
+    "merge(`{\"q\": 1}`, {z: s})",                 // merge with a literal object
+    "length(xs) || length(@)",
+    "max_by(xs, &id).id || max(a)",
+    "'raw' == s",
+];
+
 fn gen_text(r: &mut Rng, base: &J, custom: bool) -> String {
     let extra = ExtraFns { unary: vec!["cid".into()] };
     let none = ExtraFns::default();
@@ -148,7 +169,7 @@ pub fn generate(seed: u64, class: &str) -> Scenario {
     let hot = class == "hot";
     let mut r = Rng::new(seed);
     let mut base = small_doc(&mut r);
-    if r.chance(1, 2) {
+    if class != "general" && r.chance(1, 2) {
         // top-level array documents: the records array itself
         if let J::Obj(m) = &base {
             if let Some((_, xs)) = m.iter().find(|(k, _)| k == "xs") {
@@ -239,7 +260,16 @@ pub fn generate(seed: u64, class: &str) -> Scenario {
                 ops.push(Op::CompileSearch { text: r.pick(&pool_texts).clone(), d });
             }
         }
-        for _ in ops.len()..(if deep || hot { 0 } else { nops }) {
+        if !(race || late || pool || deep || hot) {
+            // general class: a sliding window over KINDS, shifted by one per thread, so that
+            // neighbouring threads evaluate the same kinds (compiled afresh or pre-compiled)
+            let start = r.below(KINDS.len());
+            for k in 0..5 {
+                let d = r.below(docs.len());
+                ops.push(Op::CompileSearch { text: KINDS[(start + t + k) % KINDS.len()].to_string(), d });
+            }
+        }
+        for _ in ops.len()..(if deep || hot { 0 } else { nops.max(ops.len() + 1) }) {
             let d = r.below(docs.len());
             let e = r.below(pre.len());
             ops.push(match r.below(10) {
